@@ -40,7 +40,7 @@ LANGS = ["c", "cpp", "py", "html"]
 # (with the special bits: set-gid / sticky / set-uid are permission bits too, requested or left on a file by someone else)
 FILE_MODES = [0o444, 0o644, 0o600, 0o664, 0o400, 0o640, 0o2644, 0o1444]
 FILE_MODES_THOROUGH = FILE_MODES + [0o200, 0o440, 0o666, 0o4755, 0o3640]
-FAULT_KINDS = ["oserror", "crash", "write_oserror", "write_crash"]
+FAULT_KINDS = ["oserror", "crash", "write_oserror", "write_crash", "refused_chmod"]
 
 
 def n_cases(tier: str) -> int:
@@ -104,6 +104,13 @@ def directed_cases(seed: int, tier: str) -> typing.List[dict]:
             {"op": "generate", "opts": {"pp_prog": "rename", "file_mode": 0o444}},
             {"op": "generate", "opts": {"pp_prog": "rename", "file_mode": 0o640}},
             {"op": "generate", "opts": {"pp_prog": True, "file_mode": 0o444}},
+        ],
+        "refused-chmod-then-regen": [
+            {"op": "generate", "opts": {"file_mode": 0o444}},
+            {"op": "generate", "opts": {"file_mode": 0o640}, "fault_pick": ["refused_chmod"]},
+            {"op": "generate", "opts": {"file_mode": 0o640}, "fault_pick": ["refused_chmod"]},
+            {"op": "generate", "opts": {"file_mode": 0o600}, "fault_pick": ["refused_chmod"]},
+            {"op": "generate", "opts": {"file_mode": 0o640}},
         ],
         "extprog-fail-then-regen": [
             {"op": "generate", "opts": {"pp_prog": True}, "fault_pick": ["extprog_fail"]},
@@ -249,7 +256,7 @@ def _session_steps(r: Rng) -> typing.List[dict]:
             if rs.chance(1, 4):
                 st["pair"] = 1  # the caller's second pair of generator objects (same tree, same directory)
             if k == "gen" and rs.chance(1, 5):
-                st["fault_pick"] = [rs.choice(["oserror", "write_oserror"])]  # this call fails half-way; the caller carries on
+                st["fault_pick"] = [rs.choice(["oserror", "write_oserror", "refused_chmod"])]  # this call fails half-way; the caller carries on
         elif k == "edit":
             st.update({"how": rs.choice(["content", "content", "chmod", "remove", "truncate"]), "pick": rs.below(1000), "mode": rs.choice([0o644, 0o444, 0o600, 0o400]), "size": rs.choice([0, 1, 50])})
             if st["how"] == "content":
